@@ -79,6 +79,7 @@ ROOT_KINDS = (["Torso"] * 8 + ["Node"] * 4 + ["ContainerGeneration", "ItemWithBa
 
 MODEL_MODULE = "test.dataset.example_classes"   # where the domain classes live (harness/c05.py also uses generated models)
 SCAL_TYPES: Dict[str, Dict[str, str]] = {}      # generated models: class -> field -> scalar type name
+FROZEN: set = set()                             # generated models: classes declared @dataclass(frozen=True)
 FALSY_FIELDS: Dict[str, Tuple[str, str]] = {}   # generated models: class -> ("len"|"bool", field): bool(instance) follows that field
 
 
@@ -241,9 +242,9 @@ def build(descr) -> List[Any]:
         for f, kind, _t, _opt in REFS.get(o["c"], []):
             ids = o["r"].get(f, [])
             if kind == "one":
-                setattr(po, f, objs[ids[0]] if ids else None)
+                object.__setattr__(po, f, objs[ids[0]] if ids else None)     # (frozen dataclasses: as their own __init__ does)
             else:
-                setattr(po, f, [objs[i] for i in ids])
+                object.__setattr__(po, f, [objs[i] for i in ids])
     return objs
 
 
@@ -536,6 +537,7 @@ def features(descr: dict) -> Dict[str, Any]:
         "alt_objs": sum(1 for o in objs if o["c"] in ALT),
         "altbase_objs": sum(1 for o in objs if o["c"] in ALTBASE),
         "altgc_objs": sum(1 for o in objs if o["c"] in ALTGC),
+        "frozen_with_refs": sum(1 for o in objs if o["c"] in FROZEN and any(o["r"].get(f) for f, _k, _t, _o in REFS.get(o["c"], []))),
         "altcycle": any(on_cycle[i] and objs[i]["c"] in ALT for i in range(n)),
     }
 
@@ -912,6 +914,8 @@ def run(tier: str, seed: int, replay=None) -> int:
     codes: Dict[int, List[int]] = {i: v for (i, _), v in zip(exprs, vals)}
 
     kf_altcycle = 0
+    kf_frozen = 0
+    c04e_open = any(f.fid == "C04-e" and f.kind == "open" for f in findings)
     kf_altbase = 0
     c04c_open = any(f.fid == "C04-c" and f.kind == "open" for f in findings)
     stale = 0
@@ -919,6 +923,9 @@ def run(tier: str, seed: int, replay=None) -> int:
     for i, m in enumerate(metas):
         res, ft = m["res"], m["ft"]
         if "exc" in res:
+            if c04e_open and ft.get("frozen_with_refs") and res["exc"].startswith("FrozenInstanceError"):
+                kf_frozen += 1      # C04-e (python-level class rule: frozen-ness is not part of the heap model)
+                continue
             bad.append((m, f"exception {res['exc']}"))
             continue
         code, f04, wf = codes[i]
@@ -955,7 +962,7 @@ def run(tier: str, seed: int, replay=None) -> int:
         rep.note(f"{stale} cases outside F04 where impl = spec but the model predicts a failure (model inexact / finding repaired)")
     dist["generated_models"] = gdist
     rep.extra["distribution"] = dist
-    rep.extra["known_finding_instances"] = {"C04-a": kf_altcycle, "C04-c": kf_altbase}
+    rep.extra["known_finding_instances"] = {"C04-a": kf_altcycle, "C04-c": kf_altbase, "C04-e": kf_frozen}
     rep.samples = [{"case": m["descr"], "features": m["ft"]} for m in metas[:: max(1, len(metas) // 5)]][:5]
 
     for m, why in bad[:5]:
@@ -1009,7 +1016,8 @@ def run(tier: str, seed: int, replay=None) -> int:
             elif f.kind == "open":
                 rep.note("known finding C04-c: the scenario no longer yields a wrong object (finding appears repaired, or the allocator did not reuse the address)")
             continue
-        still = any(m["origin"] == f.witness and m.get("code") == 2 for m in metas) if replay is None else None
+        still = any(m["origin"] == f.witness and (m.get("code") == 2 or (f.cls == "K_frozen" and str(m["res"].get("exc", "")).startswith("FrozenInstanceError")))
+                    for m in metas) if replay is None else None
         if replay is not None:
             continue
         if f.kind == "open":
